@@ -494,6 +494,7 @@ type Got struct {
 }
 
 type DiscTrace struct {
+	DupRefused    bool   `json:"dupRefused"` // a discovery with the token of a pending one was refused
 	Op            string `json:"op"`
 	Got           []Got  `json:"got"`
 	Expected      int    `json:"expected"`
@@ -573,6 +574,29 @@ func runDiscovery(seed int64) DiscTrace {
 			continue
 		}
 		seenTok[i] = d.Token
+	}
+	// a third caller tries to discover with the token of the first, still pending discovery: it must be refused and
+	// must not disturb the first (its responses still reach receiver 1)
+	if seenTok[0] != nil {
+		dreq := pool.NewMessage(ctx)
+		if err := dreq.SetupGet("/oic/res", message.Token(seenTok[0])); err == nil {
+			dreq.SetType(message.NonConfirmable)
+			dreq.SetMessageID(0x5d5d)
+			derr := make(chan error, 1)
+			go func() {
+				derr <- sv.DiscoveryRequest(dreq, resp[2].LocalAddr().String(), func(cc *udpclient.Conn, r *pool.Message) {
+					mu.Lock()
+					tr.Got = append(tr.Got, Got{Receiver: 3, Tok: toks[string(r.Token())]})
+					mu.Unlock()
+				})
+			}()
+			select {
+			case e := <-derr:
+				tr.DupRefused = e != nil
+			case <-time.After(300 * time.Millisecond):
+				tr.DupRefused = false // accepted: it is now waiting for responses
+			}
+		}
 	}
 	send := func(i int, tok []byte, mid int32) {
 		port := resp[i].LocalAddr().(*net.UDPAddr).Port
